@@ -1394,6 +1394,57 @@ def rule_r11(prog, res) -> None:
     shared_rule(res, c15.rule_r11, "C15", "C15.R11", "C01.R11")
 
 
+def rule_r12(prog, res) -> None:
+    """work lists are drained: a `while` loop that removes entries from a container and is controlled by the size /
+    truth of that container runs as long as a single entry is left (the pair iterator empties its table of links — a
+    loop that stops at one remaining patch drops that patch's remaining partners).  The loop test is folded for
+    sizes 0, 1, 2, 3; it must be false for 0 and true otherwise."""
+    from ..inline import inlined as _inl
+
+    n = 0
+    targets = [prog.func("PatchLinkage.iter_patch_id_pairs")] + [f for f in prog.func("PatchLinkage.iter_patch_id_pairs").module.all_funcs if f.parent is None and f.cls is None]
+    seen = set()
+    for f0 in targets:
+        if f0.key in seen:
+            continue
+        seen.add(f0.key)
+        f = _inl(prog, f0)
+        for lp in [x for x in ast.walk(f.node) if isinstance(x, ast.While)]:
+            removed = set()
+            for x in ast.walk(lp):
+                if isinstance(x, ast.Call) and isinstance(x.func, ast.Attribute) and x.func.attr in ("pop", "popitem", "remove", "discard", "clear") and isinstance(x.func.value, ast.Name):
+                    removed.add(x.func.value.id)
+                if isinstance(x, ast.Delete):
+                    removed |= {t.value.id for t in x.targets if isinstance(t, ast.Subscript) and isinstance(t.value, ast.Name)}
+            tests = [lp.test] if not (isinstance(lp.test, ast.Constant) and lp.test.value is True) else [ast.UnaryOp(op=ast.Not(), operand=x.test) for x in lp.body if isinstance(x, ast.If) and any(isinstance(y, ast.Break) for y in x.body)]
+            for t in tests:
+                ctl = {y.id for y in ast.walk(t) if isinstance(y, ast.Name)} & removed
+                if len(ctl) != 1:
+                    continue
+                w = next(iter(ctl))
+                table = {}
+                try:
+                    for v in (0, 1, 2, 3):
+                        table[v] = bool(ceval(t, {f"len({w})": v, w: list(range(v))}))
+                except (Unknown, TypeError):
+                    continue
+                n += 1
+                res.touch(f0)
+                if table == {0: False, 1: True, 2: True, 3: True}:
+                    res.ok("C01.R12", res.site(f0, f"while {unparse(t)[:40]}"), f"the loop runs until `{w}` is empty")
+                else:
+                    stop = min(v for v in table if v and not table[v]) if any(v and not table[v] for v in table) else None
+                    res.violation(
+                        "C01.R12",
+                        f0,
+                        lp,
+                        f"the loop that drains `{w}` stops while {stop if stop is not None else 'no'} entr{'y is' if stop == 1 else 'ies are'} left (test `{unparse(t)}` over sizes 0..3: {table}): the pairs still listed for the remaining patch are never yielded, their counts are missing",
+                        key_extra=f"drain-{w}",
+                    )
+    if n < 1:
+        raise AnalysisError("C01.R12: the draining loop of the pair iterator was not recognised")
+
+
 RULES = [
     ("C01.R1", rule_r1, QUICK),
     ("C01.R2", rule_r2, QUICK),
@@ -1406,4 +1457,5 @@ RULES = [
     ("C01.R9", rule_r9, QUICK),
     ("C01.R10", rule_r10, QUICK),
     ("C01.R11", rule_r11, QUICK),
+    ("C01.R12", rule_r12, QUICK),
 ]
